@@ -65,7 +65,7 @@ LAYOUTS = {
 
 def instances(tier):
     out = []
-    T = 230 if tier == "quick" else 600
+    T = 230 if tier == "quick" else 420
     layouts = ["quad", "right"] if tier == "quick" else ["quad", "right", "centre", "five"]
     for lay in layouts:
         n = len(LAYOUTS[lay])
